@@ -2,6 +2,7 @@ import SE.Driver.Escape
 import SE.Driver.Line
 import SE.Driver.Mapper
 import SE.Driver.Pipe
+import SE.Driver.Queue
 /-
 sedriver: the line-protocol front end of the executable models. One operation per input
 line, one result line per operation. It executes the very definitions the theorems in
@@ -18,6 +19,8 @@ def step (line : String) : String :=
     | "parse" => parseCmd args
     | "mapper" => mapperCmd args
     | "pipe" => pipeCmd args
+    | "queue" => queueCmd args
+    | "qjudge" => qjudgeCmd args
     | _ => "bad-op"
 
 partial def loop (h : IO.FS.Stream) (out : IO.FS.Stream) : IO Unit := do
